@@ -40,8 +40,10 @@ static std::pair<std::string, std::string> compare(const hg::Msg &rq, const hg::
     if (f.reqh != eh) return {"request_headers", "request headers reported " + show(f.reqh) + "\nexpected from the wire " + show(eh)};
     // host / port: the target's authority wins over the Host field
     const hg::Hdr *hh = rq.find("host"); std::string hv = hh ? hh->logical() : ""; std::string ehost; int eport = -1;
-    auto split_hp = [](const std::string &a, std::string &h, int &p) { size_t c = a.rfind(':'); if (c != std::string::npos && a.find(']') == std::string::npos) { h = a.substr(0, c); p = atoi(a.c_str() + c + 1); } else { h = a; p = -1; } };
+    auto split_hp = [](const std::string &a, std::string &h, int &p) { size_t rb = a.find(']'); if (!a.empty() && a[0] == '[' && rb != std::string::npos) { h = a.substr(0, rb + 1); p = (rb + 1 < a.size() && a[rb + 1] == ':') ? atoi(a.c_str() + rb + 2) : -1; return; } // bracketed literal: the brackets belong to the host
+        size_t c = a.rfind(':'); if (c != std::string::npos) { h = a.substr(0, c); p = atoi(a.c_str() + c + 1); } else { h = a; p = -1; } };
     if (rq.target.rfind("http://", 0) == 0) { std::string auth = rq.target.substr(7); auth = auth.substr(0, auth.find_first_of("/?#")); size_t at = auth.find('@'); if (at != std::string::npos) auth = auth.substr(at + 1); split_hp(auth, ehost, eport); }
+    else if (rq.method == "CONNECT") split_hp(rq.target, ehost, eport); // authority-form
     else split_hp(hv, ehost, eport);
     if (lower(f.host) != lower(ehost)) return D("request_hostname", f.host, ehost); // host names are case-insensitive; libhtp lower-cases them in some paths only
     if (f.port != eport) return D("request_port", std::to_string(f.port), std::to_string(eport));
@@ -154,7 +156,7 @@ static int features(const hg::Exchange &x) {
 
 static void campaign() {
     int cases = A.thorough() ? 40000 : 8000;
-    hg::Opts o;
+    hg::Opts o; o.connect_last = true;
     rcx::run("parse_fidelity", vc::mix(A.seed * 193 + A.shard), cases, 50, [&]() -> std::optional<rcx::Fail> {
         hg::Exchange x = hg::gen_exchange(o);
         int pers = rcx::range(0, 9);
